@@ -837,7 +837,7 @@ func c04Body(rc *RunCtx) {
 		if ob.alloc > bound(k) {
 			ob = c04Decode(pre, dec) // confirm: the allocation counter lags by up to a few spans
 		}
-		oc, delivered := c04DecodeConn(pre, 1+simrt.ChooseF(2), dec)
+		oc, delivered := c04DecodeConn(pre, 1+simrt.ChooseF(3), dec) // EOF after / reset after / EOF together with the last bytes
 		d.Decodes += 2
 		cls := offClass(k, n)
 		if ob.alloc > bound(k) {
@@ -860,9 +860,11 @@ func c04Body(rc *RunCtx) {
 			simrt.Probe("prefix_returned_normally_legit")
 			cell("trunc", cls, "legit-shorter")
 		}
-		if !oc.panicked && ob.panicked && !strings.Contains(ob.msg, "WA003") {
-			// connection mode returned normally although the buffer failed for another reason: fine
-			_ = oc
+		if !oc.panicked && ob.panicked {
+			// the other direction: a connection that ended inside the message must not yield an
+			// object where the buffer holding the same bytes refuses
+			cell("trunc", cls, "mode-diff-conn")
+			viol("fabricated-data", fmt.Sprintf("decoding the strict %d-byte prefix fails from a buffer (%s) but returns an object when the same bytes arrive over a connection that then ends (%d delivered)", k, ob.msg, delivered))
 		}
 	}
 	// (b) overwrite sweeps
